@@ -317,8 +317,7 @@ def kick_loop(ctx, ii):
                     if sx in cbody or not reach_without(ii, sx, h, -1):
                         continue
                     blk = ii.blocks[b]
-                    arms = {int(v): tg for v, tg in blk.term.j["arms"]} if blk.term.k == "switch" else {}
-                    if not (arms.get(0) == sx and blk.stmts and blk.stmts[-1].k == "assign" and blk.stmts[-1].rv.k == "discr"):
+                    if not (blk.term.none_some_targets()[0] == sx and blk.stmts and blk.stmts[-1].k == "assign" and blk.stmts[-1].rv.k == "discr"):
                         ok_direct = False
     ctx.check(ok_direct, "R01-cuckoo-home", ii.key + ":direct", ii,
               "direct placements try (i1, f) then (i2, f)", "direct placements use %s" % [[fmt(y) for y in a] for a in args])
